@@ -33,9 +33,22 @@ fn main() {
             "--blots-release" => { ctx.blots_release_bin = args[i + 1].clone(); i += 1; }
             "--out" => { out_path = args[i + 1].clone(); i += 1; }
             "--replay" => { ctx.replay = Some(args[i + 1].clone()); i += 1; }
-            p => prop = p.to_string(),
+            p => { if prop.is_empty() { prop = p.to_string(); } }
         }
         i += 1;
+    }
+    // debugging aid: `vharness debug-session FILE` prints, per statement, the real outcome and the model's
+    if prop == "debug-session" {
+        let src = std::fs::read_to_string(args.last().unwrap()).expect("read program");
+        let src = src.trim_end_matches('\n');
+        let stmts = evalcommon::statements(src).expect("parse");
+        let real = evalcommon::run_real(&stmts, None, src);
+        let mut model = util::Model::spawn(&ctx.model_path);
+        let m = evalcommon::model_session(&mut model, &stmts, None, 4000);
+        println!("REAL  {}", real.outcomes.join("\n      "));
+        println!("MODEL {}", m);
+        println!("ENV   {}", evalcommon::env_wire(&real));
+        return;
     }
     // silence the default panic hook: panics inside the code under test are outcomes
     std::panic::set_hook(Box::new(|_| {}));
